@@ -64,6 +64,17 @@ pub fn trans_small(s: &mut Src) -> R {
     let mut u = Trans::new(f0.clone(), b0.clone()); u.merge(Trans::new(f1.clone(), b1.clone()));
     ob!(u.forward_mat() == ff && u.backward_mat() == bb, "Trans::merge-composes");
     ob!(Trans::<i64>::id(2).is_id() && Trans::<i64>::id(2).forward(&v) == v && r.src_dim() == 2 && !t.is_id(), "Trans::id");
+    // sub(indices): F' = E F, B' = B E^T with E the selection matrix of the index list (any order, repeats allowed),
+    // the same before and after the transform is collapsed
+    let idx: Vec<usize> = (0..s.small(0, 3) as usize).map(|_| 0usize).collect::<Vec<_>>();
+    let idx: Vec<usize> = idx.iter().map(|_| s.small(0, 1) as usize).collect();
+    let e = SpMat::from_entries((idx.len(), 2), idx.iter().enumerate().map(|(i, &j)| (i, j, 1i64)));
+    let et = SpMat::from_entries((2, idx.len()), idx.iter().enumerate().map(|(i, &j)| (j, i, 1i64)));
+    let (want_f, want_b) = ((&e * &ff).into_dense(), (&bb * &et).into_dense());
+    let ts = t.sub(&idx);
+    ob!(ts.forward_mat().into_dense() == want_f && ts.backward_mat().into_dense() == want_b, "Trans::sub==selection.F/B.selection^T");
+    let rs = r.sub(&idx);
+    ob!(rs.forward_mat().into_dense() == want_f && rs.backward_mat().into_dense() == want_b, "Trans::sub-after-reduce==selection.F/B.selection^T");
     Ok(())
 }
 
@@ -116,6 +127,18 @@ pub fn lll_small(s: &mut Src) -> R {
         let rhs = Fr(3, 4).sub(mu[k][k - 1].mul(mu[k][k - 1])).mul(dot(&bs[k - 1], &bs[k - 1]));
         ob!(rhs.le(lhs), "lll::Lovasz-condition(alpha=3/4)");
     }
+    // Hermite form with every combination of requested transforms: H does not depend on the flags, H = P A, P^-1 H = A
+    use yui_matrix::dense::lll::lll_hnf;
+    let (h, p2, q2) = lll_hnf(&a, [true, true]);
+    let (p2, q2) = (p2.unwrap(), q2.unwrap());
+    ob!(&p2 * &a == h && &q2 * &h == a && &p2 * &q2 == Mat::id(3), "lll_hnf::H==P.A,Pinv.H==A,P.Pinv==I");
+    let (h1, p1, n1) = lll_hnf(&a, [true, false]);
+    ob!(n1.is_none() && h1 == h && &p1.unwrap() * &a == h1, "lll_hnf[P-only]::H==P.A");
+    let (h3, n3, q3) = lll_hnf(&a, [false, true]);
+    ob!(n3.is_none() && h3 == h && &q3.unwrap() * &h3 == a, "lll_hnf[Pinv-only]::Pinv.H==A");
+    // Smith form with only P and Q requested
+    let sr = snf(&a, [true, false, true, false]);
+    ob!(&(sr.p().unwrap() * &a) * sr.q().unwrap() == *sr.result(), "snf[P,Q-only]::D==P.A.Q");
     Ok(())
 }
 crate::harness_table!(SNF: snf_small [unwind 4], snf_gauss_small [unwind 4], trans_small [unwind 4], lll_small [unwind 4]);
